@@ -135,6 +135,22 @@ func getEndOfLastValuePositionInFile(fname string, startPos int64) (int64, error
 	}
 }
 
+// followDiscardLog empties the local log together with the dataset that was
+// built from it, so that the follower resyncs from the start of the leader's
+// log. Keeping either of them would leave data the leader does not have.
+func (s *Server) followDiscardLog() error {
+	fname := s.aof.Name()
+	s.aof.Close()
+	var err error
+	s.aof, err = os.Create(fname)
+	if err != nil {
+		log.Fatalf("could not recreate aof, possible data loss. %s", err.Error())
+		return err
+	}
+	s.reset()
+	return nil
+}
+
 // followCheckSome is not a full checksum. It just "checks some" data.
 // We will do some various checksums on the leader until we find the correct position to start at.
 func (s *Server) followCheckSome(addr string, followc int, auth string,
@@ -148,7 +164,11 @@ func (s *Server) followCheckSome(addr string, followc int, auth string,
 		return 0, errNoLongerFollowing
 	}
 	if s.aofsz < checksumsz {
-		return 0, nil
+		if s.aofsz == 0 {
+			return 0, nil
+		}
+		// too short to be compared with the leader: start over
+		return 0, s.followDiscardLog()
 	}
 
 	conn, err := DialTimeout(addr, time.Second*2)
@@ -194,13 +214,7 @@ func (s *Server) followCheckSome(addr string, followc int, auth string,
 	fullpos := pos
 	fname := s.aof.Name()
 	if pos == 0 {
-		s.aof.Close()
-		s.aof, err = os.Create(fname)
-		if err != nil {
-			log.Fatalf("could not recreate aof, possible data loss. %s", err.Error())
-			return 0, err
-		}
-		return 0, nil
+		return 0, s.followDiscardLog()
 	}
 
 	// we want to truncate at a command location
